@@ -53,7 +53,10 @@ def error_msg(msg, filltext=None, prefix=None):
     if filltext is not None and filltext > 0:
         msg = textwrap.fill(msg, width=filltext - len(prefix))
     msg = textwrap.indent(msg, prefix, lambda line: True)
-    print(msg, file=sys.stderr)
+    # with the standard error closed there is nowhere to write to
+    # (print(..., file=None) would write to the standard output)
+    if sys.stderr is not None:
+        print(msg, file=sys.stderr)
 
 
 class InternalBug(Exception):
